@@ -284,7 +284,7 @@ def plan(tier, seed):
     specs = c03.plan(tier, seed)
     specs.append({"kind": "saenger", "files": []})
     n = 8 if tier == "quick" else 16
-    ex = 20 if tier == "quick" else 120
+    ex = 20 if tier == "quick" else 400
     specs += [{"kind": "multimodel", "files": corpus.SMALL[:8], "examples": ex, "seed": seed * 1000 + 200 + k} for k in range(n)]
     return specs
 
